@@ -21,10 +21,10 @@ def build_variant(variant):
     if variant == "tsan":
         return vlib.build_harness("tsan", sanitize="thread", exe_sources=EXEC_SOURCES)
     if variant == "sched":
-        return vlib.build_harness("sched", exe_sources=("tp_drv.c", "shims/sched.c"), exe_name="tpdrv", threadpool="sched", lib=False)
+        return vlib.build_tpdrv()
     raise ValueError(variant)
 
-EXEC_SOURCES = tuple(s for s in ("exec.c", "ops_table.c", "ops_codec.c", "ops_merger.c", "ops_sorter.c", "ops_fileset.c", "ops_misc.c")
+EXEC_SOURCES = tuple(s for s in ("exec.c", "ops_table.c", "ops_codec.c", "ops_merger.c", "ops_sorter.c", "ops_fileset.c", "ops_misc.c", "ops_mt.c")
                      if os.path.exists(os.path.join(vlib.HARNESS, s)))
 
 
@@ -988,3 +988,182 @@ reg("C15", ["cz"], "every length 0..64 x 5 algorithms x representative contents 
     "(a call with another level, capacity or size than the model predicts is a miss and surfaces as a disagreement); names: all enum values, case variants, near misses; non-trivial = at least one successful compress",
     ["the four libraries meet the contracts of LibOK (round trip given enough room, deflateBound guarantee, recorded content sizes); what they emit is outside the model (partial)",
      "malloc/realloc succeed; deflateInit/inflateInit succeed for levels in -1..9", "megabyte inputs are exercised on the real code only (oracle, no model run)"])
+
+
+# ------------------------------------------------------------------ thread pool under the deterministic scheduler (C13)
+def parse_tp_state(real):
+    """'[pick x ]st k=v ...' -> dict, or None"""
+    if " st " not in " " + real:
+        return None
+    body = real[real.index("st ") + 3:]
+    d = {"done": body.startswith("done")}
+    for part in body.split(" "):
+        if "=" in part:
+            k, v = part.split("=", 1)
+            d[k] = v
+    return d
+
+def tp_list(v):
+    v = v.strip("[]")
+    return [x for x in v.split(",") if x != ""]
+
+
+class TpFamily(Family):
+    """mtbl/threadpool.c under the deterministic scheduler, in lockstep with the Lean transition system: every turn's visible
+    state (count, idle list, result queue, outstanding counter, finished flag, per-thread mailbox, delivered results) and the
+    set of enabled / sleeping threads are compared."""
+    name = "tp"
+    variant = "sched"
+    def cases(self, pid, seed, tier, mult, stats):
+        for c in self.corpus(pid):
+            yield c
+        rng = Rng(seed * 15485863 + 77)
+        # systematic part: every small configuration, a few schedules each
+        cfgs = [(m, j, o) for m in (1, 2, 3) for j in (0, 1, 2, 3, 4) for o in (0, 1)]
+        reps = budget(tier, 6, 120, mult)
+        for m, j, o in cfgs:
+            for k in range(reps):
+                yield self.mk(rng, m, j, o, stats, "tp:%d:%d/%d/%d:%d" % (seed, m, j, o, k))
+        for i in range(budget(tier, 120, 4000, mult)):
+            m = rng.pick([1, 1, 2, 2, 3, 4, 6]); j = rng.pick([0, 1, 2, 3, 5, 8, 12]); o = rng.below(2)
+            yield self.mk(rng, m, j, o, stats, "tp:%d:r%d" % (seed, i))
+    def mk(self, rng, m, j, o, stats, cid):
+        stats.bump("tp_max_%d" % m); stats.bump("tp_jobs_%d" % j); stats.bump("tp_ordered_%d" % o)
+        mode = rng.pick(["uniform", "uniform", "starve_handler", "starve_workers", "caller_first"])
+        stats.bump("tp_sched_" + mode)
+        lines = ["tp.new max=%d jobs=%d ord=%d" % (m, j, o)]
+        n = 120 + 70 * j
+        for _ in range(n):
+            lines.append("tp.auto %d" % rng.below(1 << 30))
+        return (cid, lines)
+    def oracle(self, res):
+        fails = []
+        if not res:
+            return fails
+        t = res[0]["req"].split(" ")
+        kvs = dict(a.split("=") for a in t[1:] if "=" in a)
+        mx, jobs, ordered = int(kvs.get("max", 1)), int(kvs.get("jobs", 0)), kvs.get("ord", "1") == "1"
+        finished = False
+        for i, r in enumerate(res):
+            real = r["real"]
+            if real in ("asan", "abort") or real.startswith("crash") or real.startswith("exit:"):
+                fails.append(("C13", "the pool program died (%s) %s" % (real, r.get("stderr", "")[-300:]), i)); break
+            st = parse_tp_state(real)
+            if st is None:
+                continue
+            if "PROBLEM" in st:
+                fails.append(("C13", "synchronisation misuse: " + real[real.index("PROBLEM="):], i)); break
+            dl = tp_list(st.get("del", "[]"))
+            if len(set(dl)) != len(dl) or any(int(x) < 0 or int(x) >= jobs for x in dl):
+                fails.append(("C13", "a result was delivered twice or is not a submitted job's result: del=%s" % st.get("del"), i)); break
+            if ordered and dl != [str(k) for k in range(len(dl))]:
+                fails.append(("C13", "ordered delivery out of submission order: del=%s" % st.get("del"), i)); break
+            if st["done"]:
+                finished = True
+                if sorted(int(x) for x in dl) != list(range(jobs)):
+                    fails.append(("C13", "the run ended with results missing: del=%s of %d jobs" % (st.get("del"), jobs), i))
+                break
+            if int(st.get("count", "0")) > mx:
+                fails.append(("C13", "pool runs %s worker threads, configured maximum %d" % (st["count"], mx), i)); break
+            if real.startswith("pick none"):
+                fails.append(("C13", "deadlock: no thread can take a step and the run has not ended (a close/destroy call hangs): " + real[:200], i)); break
+            if st.get("en") == "[]" and st.get("sl", "[]") != "[]" and not real.startswith("pick s:"):
+                # nobody enabled, only sleepers: only a spurious wake-up could continue
+                fails.append(("C13", "deadlock: every live thread sleeps on a condition variable: " + real[:200], i)); break
+        self.last_finished = finished
+        return fails
+    def tie_props(self, res, idx):
+        return {"C13", "C14"}
+    def nontrivial(self, pid, lines, res):
+        st = [parse_tp_state(r["real"]) for r in res]
+        return any(s and s["done"] for s in st) and len(res) > 12
+    def keep_prefix(self, lines):
+        return 1
+
+FAMILIES["tp"] = TpFamily
+
+
+class PooledFamily(Family):
+    """writers and sorters with a real thread pool under the OS scheduler, against the sequential model and the sequential oracle"""
+    name = "pooled"
+    def cases(self, pid, seed, tier, mult, stats):
+        for i in range(budget(tier, 60, 1500, mult)):
+            rng = Rng(seed * 2750159 + i * 13 + 5)
+            pool = rng.pick([0, 1, 1, 2, 3, 4, 8])
+            if i % 2 == 0:
+                stats.bump("pooled_writer_pool_%d" % pool)
+                yield ("pooled:w:%d:%d" % (seed, i), F.gen_table_case(rng, stats, mode="sorted", small=True, nkeys=rng.pick([5, 12, 30, 60]), pool=pool))
+            else:
+                stats.bump("pooled_sorter_pool_%d" % pool)
+                yield ("pooled:s:%d:%d" % (seed, i), F.gen_sorter_case(rng, stats, pool=pool))
+    def oracle(self, res):
+        out = []
+        is_sorter = any(r["req"].startswith("s.new") for r in res)
+        for f in (F.oracle_sorter(res) if is_sorter else F.oracle_table(res)):
+            out.append(("C13", "with a thread pool: " + f[1], f[2]))
+        return out
+    def tie_props(self, res, idx):
+        return {"C13"}
+    def nontrivial(self, pid, lines, res):
+        for r in res:
+            if r["req"].startswith("r.openw") and r["real"].startswith("ok "):
+                return int(r["real"].split(" ")[6]) >= 2
+            if r["req"].startswith("s.spills"):
+                return not r["real"].startswith("spills 0") and not r["real"].startswith("spills 1 ")
+        return False
+    def keep_prefix(self, lines):
+        return 2
+
+FAMILIES["pooled"] = PooledFamily
+
+reg("C13", ["tp", "pooled"], "mtbl/threadpool.c compiled unmodified into harness/tp_drv.c with every pthread call routed to a deterministic, externally driven scheduler (one turn = one step of the Lean machine, scheduling points at lock attempts, condition waits, thread creation, joins, exits); "
+    "pool sizes 1..6, 0..12 jobs, ordered and unordered delivery, random schedules with spurious wake-ups; after every turn the visible state (count, idle list, result queue, outstanding counter, finished flag, per-thread running/cb/res/rq, delivered results) and the sets of enabled and sleeping threads are compared with the machine; "
+    "oracle on the real run: count <= max, no result twice, ordered results in order, all results at the end, no deadlock, no mutex misuse; plus writers and sorters with real pools (0..8 threads) under the OS scheduler against the sequential model (byte-identical files, same entries); non-trivial = the run reached the end (tp) / >= 2 blocks or spills (pooled)",
+    ["pthread mutex/condition semantics incl. spurious wake-ups (the scheduler implements them); a critical section is one atomic step (rests on data-race freedom, C14)",
+     "liveness beyond deadlock freedom (every call returns under a fair scheduler with finitely many spurious wake-ups) is not mechanised (partial)",
+     "thread creation does not fail"], variants=["sched", "A"], max_s={"quick": 100, "thorough": 1500})
+
+
+# ------------------------------------------------------------------ the concurrent uses the API allows, under ThreadSanitizer (C14)
+class MtFamily(Family):
+    name = "mt"
+    variant = "tsan"
+    def cases(self, pid, seed, tier, mult, stats):
+        rng = Rng(seed * 32452843 + 9)
+        for i in range(budget(tier, 10, 150, mult)):
+            callers = rng.pick([1, 2, 3, 4]); pool = rng.pick([1, 2, 3, 4, 8, 16]); readers = rng.pick([0, 2, 4, 8])
+            sorters = rng.below(2); entries = rng.pick([50, 200, 600, 1500])
+            rounds = rng.pick([1, 2, 4]) if tier == "quick" else rng.pick([2, 5, 10])
+            stats.bump("mt_callers_%d" % callers); stats.bump("mt_pool_%d" % pool); stats.bump("mt_readers_%d" % readers); stats.bump("mt_sorters_%d" % sorters)
+            yield ("mt:%d:%d" % (seed, i), ["mt.run callers=%d pool=%d readers=%d entries=%d seed=%d sorters=%d rounds=%d" % (callers, pool, readers, entries, seed * 100 + i, sorters, rounds)])
+    def run(self, exe, lines):
+        return vlib.run_script(exe, lines, real_env={"TSAN_OPTIONS": "halt_on_error=1 exitcode=66 report_signal_unsafe=0"})
+    def oracle(self, res):
+        fails = []
+        for i, r in enumerate(res):
+            if not r["req"].startswith("mt.run"):
+                continue
+            real = r["real"]
+            if real == "tsan":
+                err = r.get("stderr", "")
+                m = [l.strip() for l in err.splitlines() if "data race" in l or l.strip().startswith("#0") or l.strip().startswith("#1")]
+                fails.append(("C14", "ThreadSanitizer: " + " | ".join(m[:6])[:600], i))
+            elif not real.startswith("ok "):
+                fails.append(("C14", "concurrent program failed: " + real[:200] + " " + r.get("stderr", "")[-200:], i))
+        return fails
+    def tie_props(self, res, idx):
+        return set()
+    def nontrivial(self, pid, lines, res):
+        return any(r["real"].startswith("ok ") and "callers=1 " not in r["real"] for r in res) or any(r["real"].startswith("ok ") and "readers=0" not in r["real"] for r in res)
+    def keep_prefix(self, lines):
+        return 0
+
+FAMILIES["mt"] = MtFamily
+
+reg("C14", ["tp", "mt"], "static: the access sites of mtbl/threadpool.c (struct, field, read/write, mutexes held) are re-extracted from the source on every run and re-checked against the hand-declared site table and the access labels of the machine (theorems C14_sites_declared, C14_declared_in_model); "
+    "dynamic tie of the machine: the tp family of C13 (threadpool.c under the deterministic scheduler in lockstep with the machine); "
+    "search for a concrete race: a ThreadSanitizer build of the library runs 1..4 caller threads, each with its own pooled writer and pooled sorter, sharing ONE pool of 1..16 threads, together with 0..8 threads iterating and querying one shared reader through their own iterators (1..10 rounds, tiny blocks and sorter chunks so that many jobs are in flight); non-trivial = a completed run with >= 2 callers or >= 2 reader threads",
+    ["the C11 memory model, compiler transformations, the compression libraries and malloc are not modelled: the theorem is about the ownership/locking discipline of the machine and its agreement with the extracted access sites (partial)",
+     "the machine has one caller and one result handler; several callers sharing a pool, the writer/sorter field partition and reader immutability are covered at run time by ThreadSanitizer only (partial)",
+     "a critical section is one atomic step of the machine"],
+    generated=["AccessSites"], variants=["sched", "tsan"], max_s={"quick": 100, "thorough": 1500})
